@@ -1234,3 +1234,67 @@ def has_field(origins, kind, name_suffix):
             if full.endswith(name_suffix):
                 return True
     return False
+
+
+# ----------------------------------------------------------------- boolean closures
+
+def _resolve_cmp(body, bi, si, k, pay, depth=0):
+    """definition -> (op, a, b, negated, site) following copies and `Not`s, or None"""
+    if depth > 6:
+        return None
+    if k == "call":
+        if pay["callee"] in _CMP_CALLS and len(pay["args"]) == 2:
+            return (_CMP_CALLS[pay["callee"]], pay["args"][0], pay["args"][1], False, (bi, T))
+        return None
+    if k != "assign":
+        return None
+    rv = pay["rv"]
+    if rv["k"] == "bin" and rv["op"] in _CMP_OPS:
+        return (rv["op"], rv["a"], rv["b"], False, (bi, si))
+    src = None
+    neg = False
+    if rv["k"] == "use" and rv["o"]["k"] in ("copy", "move") and not rv["o"]["pl"].get("p"):
+        src = rv["o"]["pl"]["l"]
+    elif rv["k"] == "un" and rv["op"] == "Not" and rv["a"]["k"] in ("copy", "move") and not rv["a"]["pl"].get("p"):
+        src = rv["a"]["pl"]["l"]
+        neg = True
+    if src is None:
+        return None
+    ds = [d for d in body.defs().get(src, []) if not (d[2] == "assign" and d[3]["lhs"].get("p"))]
+    if len(ds) != 1:
+        return None
+    r = _resolve_cmp(body, ds[0][0], ds[0][1], ds[0][2], ds[0][3], depth + 1)
+    if r is None:
+        return None
+    return (r[0], r[1], r[2], r[3] != neg, r[4])
+
+
+def closure_true_implies(body, rel, is_a, is_b):
+    """for a closure / fn returning bool: does `returns true` guarantee `A rel B`?
+    Handles `_0 = [!]cmp(a, b)` (primitive op or PartialOrd call, through copies) and branchy bodies where every
+    `_0 = const true` definition is dominated by edges implying the relation.
+    Returns (True/False, explanation)"""
+    defs0 = [d for d in body.defs().get(0, [])]
+    if not defs0:
+        return False, "no return value"
+    edges, used = edges_implying(body, rel, is_a, is_b)
+    for (bi, si, k, pay) in defs0:
+        if k == "assign" and pay["rv"]["k"] == "use" and pay["rv"]["o"]["k"] == "const":
+            if pay["rv"]["o"].get("int") == 1:
+                if not (edges and body.dominated_by_edges(bi, edges)):
+                    return False, "a `true` result at %s is not guarded by the comparison" % body.sp(bi, si)
+            continue
+        r = _resolve_cmp(body, bi, si, k, pay)
+        if r is None:
+            return False, "result at %s is not a comparison" % body.sp(bi, si)
+        op, a, b, neg, site = r
+        oa = operand_origins(body, a, at=site)
+        ob = operand_origins(body, b, at=site)
+        ok = False
+        want = "false_edge" if neg else "true_edge"
+        for swapped, (x, y) in ((False, (oa, ob)), (True, (ob, oa))):
+            if is_a(x) and is_b(y) and _IMPLY[rel].get((op, swapped)) == want:
+                ok = True
+        if not ok:
+            return False, "comparison %s%s at %s does not imply the required relation" % ("!" if neg else "", op, body.sp(site[0], site[1]))
+    return True, "ok"
